@@ -355,13 +355,20 @@ func c20Exec(in []string) []string {
 		rt := &c20Builder{}
 		opts := c20UIOptions(in[4], proto.UnL(in[5]))
 		var h http.Handler
+		// one case in four hands over NO builder (the handlers then use the pass-through builder): what
+		// the router was given cannot be recorded then, an operation's answer is recognised by its body
+		var build middleware.Builder = rt.build
+		noBuilder := (len(in[7])+len(in[5]))%4 == 3
+		if noBuilder {
+			build = nil
+		}
 		switch kind {
 		case "redoc":
-			h = ctx.APIHandler(rt.build, opts...)
+			h = ctx.APIHandler(build, opts...)
 		case "rapidoc":
-			h = ctx.APIHandlerRapiDoc(rt.build, opts...)
+			h = ctx.APIHandlerRapiDoc(build, opts...)
 		case "swaggerui":
-			h = ctx.APIHandlerSwaggerUI(rt.build, opts...)
+			h = ctx.APIHandlerSwaggerUI(build, opts...)
 		default:
 			panic("C20: unknown flavour " + kind)
 		}
@@ -369,6 +376,9 @@ func c20Exec(in []string) []string {
 		rec := httptest.NewRecorder()
 		h.ServeHTTP(rec, req)
 		ct := rec.Header().Get("Content-Type")
+		if noBuilder && rec.Code == http.StatusOK && strings.HasPrefix(strings.TrimSpace(rec.Body.String()), "\"OP") {
+			rt.called, rt.method, rt.path = true, req.Method, req.URL.Path
+		}
 		// who answered: a matched route (the builder saw the request) and every router error
 		// (404/405 JSON errors) count as "next"; a 200 text/html answer is the UI; any other 200
 		// answer that did not go through the router is the spec middleware's.
